@@ -292,7 +292,7 @@ def _run(rec, rng, sim, R, srv, asyncm, path, V, case):
 
 def plan(tier, seed):
     n = 16
-    per = 6000 if tier == 'thorough' else 1000
+    per = 30000 if tier == 'thorough' else 1000
     return [{'seed': seed, 'shard': s, 'n': per} for s in range(n)]
 
 
